@@ -23,7 +23,12 @@ from . import core, term, translate
 
 
 K1_FILES = {'consts': ['GenConsts'], 'c16_translate': ['GenBounds'], 'c19_translate': ['GenUriTables'],
-            'c03_translate': ['GenOrdering'], 'c17_translate': ['GenDescriptor'], 'wire_k1': ['GenCommands', 'GenLayout']}
+            'c03_translate': ['GenOrdering'], 'c17_translate': ['GenDescriptor'], 'wire_k1': ['GenCommands', 'GenLayout'],
+            # general source translator (tools/props/src_translate.py), one generator module per area
+            'src_bits_translate': ['GenSrcBits'], 'src_ring_translate': ['GenSrcRing'],
+            'src_broadcast_translate': ['GenSrcBroadcast'], 'src_counters_translate': ['GenSrcCounters'],
+            'src_frame_translate': ['GenSrcFrame'], 'src_pub_translate': ['GenSrcPub'], 'src_image_translate': ['GenSrcImage'],
+            'src_sub_translate': ['GenSrcSub']}
 
 
 def _case_key(c):
@@ -82,7 +87,7 @@ class Run:
             ok, out = core.coq_build([f[:-2] + '.vo'])
             if not ok:
                 self.proof_ok = False
-                self.broken.append('theorem file %s: %s' % (f, _last_error(out)))
+                self.broken.append('theorem file %s: %s%s' % (f, _last_error(out), _blame(f, out)))
         bad = core.coq_hygiene()
         if bad:
             raise core.MachineryError('forbidden declarations in the development:\n' + '\n'.join(bad))
@@ -210,6 +215,37 @@ def _last_error(out):
     lines = out.strip().split('\n')
     keep = [l for l in lines if 'Error' in l or 'error' in l or l.startswith('File ')]
     return ' | '.join((keep or lines)[-4:])[:600]
+
+
+def _blame(prop_file, out):
+    """Which lemma failed to compile and which theorems of `prop_file` rest on it (for the violation message)."""
+    import re
+    try:
+        m = None
+        for m in re.finditer(r'File "\./([^"]+)", line (\d+)', out):
+            pass
+        if not m:
+            return ''
+        path, line = m.group(1), int(m.group(2))
+        src = open(os.path.join(core.COQ, path)).read().split('\n')
+        lemma = None
+        for l in reversed(src[:line]):
+            mm = re.match(r'^\s*(?:Lemma|Theorem|Corollary|Fact|Example)\s+(\w+)', l)
+            if mm:
+                lemma = mm.group(1)
+                break
+        if not lemma:
+            return ''
+        if path == prop_file:
+            return ' [theorem %s]' % lemma
+        text = open(os.path.join(core.COQ, prop_file)).read()
+        hit = []
+        for mm in re.finditer(r'(?ms)^Theorem\s+(\w+)(.*?)Qed\.', text):
+            if re.search(r'\b%s\b' % re.escape(lemma), mm.group(2)):
+                hit.append(mm.group(1))
+        return ' [lemma %s of %s; theorems resting on it: %s]' % (lemma, path, ', '.join(hit) if hit else 'through other lemmas of that file')
+    except Exception:
+        return ''
 
 
 def _size(c):
@@ -366,6 +402,12 @@ def _main(mod, tier, seed, replay):
         'K2: differential harness harness/%s (Rust, path dependency on the working tree, cfg %s) and tools/props/%s.py generators' % (
             ','.join(mod.CRATES), core.GUARD, mod.ID.lower()),
     ] + list(getattr(mod, 'TRUSTED', []))
+    src_files = [f for f in getattr(mod, 'EXTRA_PROP_FILES', []) if f.endswith('Src.v')]
+    if src_files:
+        trusted.append('K1 source tie (%s): tools/props/src_translate.py (+ the parser of c17_translate.py) translates the pure helper and '
+                       'decision functions this property rests on from the Rust text on every run (coq/Generated/GenSrc*.v); trusted to read '
+                       'the subset of Rust described in docs/reports/SRC.md as rustc does; coq/Base/MachineIntT.v defines the width-generic '
+                       'operators and result shapes the generated text uses' % ', '.join(src_files))
     coverage = {
         'obligations': run.obligations,
         'discharged': run.obligations if run.proof_ok else 0,
